@@ -218,6 +218,16 @@ Proof.
   - apply inv_set_regions; [exact I|]. apply del_sorted. assumption.
 Qed.
 
+Lemma inv_load_once s : SInv s -> SInv (fst (load_once s)).
+Proof.
+  intros I. unfold load_once.
+  destruct (use_rs s) eqn:Ers; [|apply inv_collect; exact I].
+  destruct (loaded_once s); [exact I|].
+  pose proof (inv_collect s I) as IC. destruct (collect_regions s) as [s' b]. cbn [fst] in IC.
+  destruct b as [| |st l| | | |]; try exact IC. destruct st; try exact IC.
+  destruct IC as [C1 C2 C3 C4 C5 C6]. constructor; cbn; assumption.
+Qed.
+
 Lemma inv_step s o : SInv s -> op_ok o -> SInv (fst (run_op s o)).
 Proof.
   intros I Ho. pose proof I as [H1 H2 H3 H4 H5 H6].
@@ -234,11 +244,7 @@ Proof.
   - cbn [fst]. pose proof (inv_flush s I) as [F1 F2 F3 F4 F5 F6]. constructor; cbn; try assumption; try exact Logic.I.
   - constructor; cbn; assumption.
   - apply inv_collect. exact I.
-  - destruct (use_rs s) eqn:Ers; [|apply inv_collect; exact I].
-    destruct (loaded_once s); [exact I|].
-    pose proof (inv_collect s I) as IC. destruct (collect_regions s) as [s' b]. cbn [fst] in IC.
-    destruct b as [| |st l| | |]; try exact IC. destruct st; try exact IC.
-    destruct IC as [C1 C2 C3 C4 C5 C6]. constructor; cbn; assumption.
+  - apply inv_load_once. exact I.
   - pose proof (load_cache_sorted (faults_of s (use_rs s)) (regions_of s (use_rs s))) as P.
     assert (Hs : sorted_from 0 (regions_of s (use_rs s))) by (unfold regions_of; destruct (use_rs s); assumption).
     specialize (P Hs).
@@ -258,6 +264,8 @@ Proof.
   - cbn [fst]. destruct written.
     + pose proof (inv_flush s I) as [F1 F2 F3 F4 F5 F6]. constructor; cbn; try assumption; try exact Logic.I.
     + constructor; cbn; try assumption; try exact Logic.I.
+  - destruct (lookup (regions_of s (use_rs s)) bad); [|apply inv_load_once; exact I].
+    destruct (use_rs s && loaded_once s); exact I.
 Qed.
 
 Lemma inv_init : SInv sinit.
@@ -313,6 +321,13 @@ Proof. unfold save_region. destruct (use_rs s); [destruct (cache_size s <? batch
 Lemma delete_region_frame s id : store_part (fst (delete_region s id)) = store_part s.
 Proof. unfold delete_region. destruct (use_rs s); [reflexivity|cbn [fst]; apply set_regions_frame]. Qed.
 
+Lemma load_once_frame s : store_part (fst (load_once s)) = store_part s.
+Proof.
+  unfold load_once. destruct (use_rs s); [|apply collect_frame]. destruct (loaded_once s); [reflexivity|].
+  pose proof (collect_frame s) as F. destruct (collect_regions s) as [s' b]. cbn [fst] in *.
+  destruct b as [| |st l| | | |]; try exact F. destruct st; exact F.
+Qed.
+
 Definition eff_map (m : amap Z) (e : option (Z * option Z)) : amap Z :=
   match e with Some (id, Some v) => put m id v | Some (id, None) => del m id | None => m end.
 
@@ -325,9 +340,7 @@ Proof.
   - apply save_region_frame.
   - apply delete_region_frame.
   - apply collect_frame.
-  - destruct (use_rs s); [|apply collect_frame]. destruct (loaded_once s); [reflexivity|].
-    pose proof (collect_frame s) as F. destruct (collect_regions s) as [s' b]. cbn [fst] in *.
-    destruct b as [| |st l| | |]; try exact F. destruct st; exact F.
+  - apply load_once_frame.
   - destruct (load_regions _ _ _ _) as [[[st acc] m'] c']. cbn [fst].
     pose proof (set_regions_frame s (use_rs s) m') as F. destruct (use_rs s); exact F.
   - destruct applied; reflexivity.
@@ -335,6 +348,7 @@ Proof.
   - destruct (use_rs s); [apply save_region_frame|]. destruct applied; reflexivity.
   - destruct (use_rs s); [apply delete_region_frame|]. destruct applied; reflexivity.
   - destruct written; reflexivity.
+  - destruct (lookup (regions_of s (use_rs s)) bad); [|apply load_once_frame]. destruct (use_rs s && loaded_once s); reflexivity.
 Qed.
 
 Lemma lookup_eff m e j : sorted_from 0 m -> lookup (eff_map m e) j = apply_eff (lookup m) e j.
@@ -442,7 +456,7 @@ Definition no_rwant : Z -> option rv := fun _ => None.
 (* histories without backend switches, crashes and pruning loads; the timed flush may fire anywhere, writes of the
    store namespaces may fail *)
 Definition plain_op (o : op) : bool :=
-  match o with OSwitch _ | OCrash | OLoadIntoCache | OSaveRegionF _ _ _ | ODeleteRegionF _ _ | OCrashInFlush _ => false | _ => true end.
+  match o with OSwitch _ | OCrash | OLoadIntoCache | OSaveRegionF _ _ _ | ODeleteRegionF _ _ | OCrashInFlush _ | OLoadOnceCorrupt _ => false | _ => true end.
 Definition plain_ops (ops : list op) : bool := forallb plain_op ops.
 (* the direct backend also admits failing region writes *)
 Definition direct_op (o : op) : bool :=
@@ -464,7 +478,7 @@ Lemma direct_step s o : direct_op o = true -> use_rs s = false ->
                                end.
 Proof.
   intros Hp Hrs. destruct (collect_keeps_regions s) as (C1 & _ & _ & _ & C5).
-  destruct o; try discriminate; cbn [run_op region_eff]; unfold save_region, delete_region; rewrite ?Hrs; cbn [fst];
+  destruct o; try discriminate; cbn [run_op region_eff]; unfold save_region, delete_region, load_once; rewrite ?Hrs; cbn [fst];
     try (destruct (load_stores (stores s))); try destruct applied; try destruct stage; unfold set_regions, regions_of, flush_batch;
     rewrite ?C1, ?C5, ?Hrs;
     split; first [reflexivity | exact Hrs | cbn; first [reflexivity | exact Hrs]].
@@ -552,7 +566,7 @@ Lemma rs_step s o f : SInv s -> op_ok o -> plain_op o = true -> use_rs s = true 
 Proof.
   intros I Ho Hp Hrs Hf. pose proof I as [_ _ _ _ H5 H6].
   destruct (collect_keeps_regions s) as (_ & C2 & C3 & _ & C5).
-  destruct o; try discriminate; cbn [run_op]; unfold region_want; cbn [region_eff]; unfold save_region, delete_region;
+  destruct o; try discriminate; cbn [run_op]; unfold region_want; cbn [region_eff]; unfold save_region, delete_region, load_once;
     rewrite ?Hrs; cbn [fst].
   - split; [first [exact Hrs|reflexivity]|exact Hf].
   - split; [first [exact Hrs|reflexivity]|exact Hf].
@@ -582,7 +596,7 @@ Proof.
     destruct (collect_regions s) as [s' b] eqn:E. cbn [fst] in C2, C3, C5.
     assert (G : use_rs s' = true /\ forall j, overlay s' j = f j).
     { split; [rewrite C5; exact Hrs|]. intros j. unfold overlay. rewrite C2, C3. apply Hf. }
-    destruct b as [| |st l| | |]; try exact G. destruct st; exact G.
+    destruct b as [| |st l| | | |]; try exact G. destruct st; exact G.
   - destruct applied; split; first [exact Hrs|reflexivity|exact Hf].
   - destruct applied; split; first [exact Hrs|reflexivity|exact Hf].
   - split; [first [exact Hrs|reflexivity]|exact Hf].
@@ -735,4 +749,38 @@ Proof.
   - split; [reflexivity|]. split; [reflexivity|]. intros id.
     pose proof (overlay_flush s I id) as O. unfold overlay in O at 1. cbn [flush_batch batch ldb lookup] in O. exact O.
   - repeat split.
+Qed.
+
+(* ---------- LoadRegionsOnce: the once-flag is set only after a successful load ---------- *)
+Lemma load_once_obs s : SInv s -> use_rs s = true -> loaded_once s = false ->
+  snd (load_once s) = BRegions RDone (filter (fun p => fst p <? range_end) (ldb s)) /\
+  loaded_once (fst (load_once s)) = true /\ ldb (fst (load_once s)) = ldb s.
+Proof.
+  intros I Hrs Hl. unfold load_once. rewrite Hrs, Hl.
+  pose proof (rs_load_obs s I Hrs) as O. cbn [run_op] in O.
+  destruct (collect_keeps_regions s) as (_ & C2 & _).
+  destruct (collect_regions s) as [s' b]. cbn [fst snd] in *. subst b. cbn [fst snd loaded_once ldb]. auto.
+Qed.
+
+(* a first LoadRegionsOnce that fails half-way (an unreadable value) delivers the regions below the bad one, leaves
+   the flag unset and the storage untouched; the retry then delivers everything; only after that success later calls
+   are skipped *)
+Theorem load_once_retry_pf s bad : SInv s -> use_rs s = true -> loaded_once s = false ->
+  lookup (ldb s) bad <> None ->
+  let s1 := fst (run_op s (OLoadOnceCorrupt bad)) in
+  snd (run_op s (OLoadOnceCorrupt bad)) = BRegions RFailed (filter (fun p => fst p <? bad) (ldb s)) /\
+  s1 = s /\
+  snd (run_op s1 OLoadOnce) = BRegions RDone (filter (fun p => fst p <? range_end) (ldb s)) /\
+  snd (run_op (fst (run_op s1 OLoadOnce)) OLoadOnce) = BSkipped.
+Proof.
+  intros I Hrs Hl Hbad s1. unfold s1. cbn [run_op]. unfold regions_of. rewrite Hrs, Hl.
+  destruct (lookup (ldb s) bad) eqn:E; [|contradiction]. cbn [andb fst snd].
+  split; [reflexivity|]. split; [reflexivity|].
+  destruct (load_once_obs s I Hrs Hl) as (O1 & O2 & _). split; [exact O1|].
+  unfold load_once at 1.
+  assert (Hrs' : use_rs (fst (load_once s)) = true).
+  { unfold load_once. rewrite Hrs, Hl. destruct (collect_keeps_regions s) as (_ & _ & _ & _ & C5).
+    destruct (collect_regions s) as [s' b]. cbn [fst] in *.
+    destruct b as [| |[] l| | | |]; cbn [fst use_rs]; rewrite ?C5; exact Hrs. }
+  rewrite Hrs', O2. reflexivity.
 Qed.
